@@ -49,6 +49,12 @@ def run_item(item):
     _setup_path()
     t0 = time.time()
     kind = item["kind"]
+    crash = os.environ.get("VERIF_SELFTEST_CRASH")       # self-test of the crash recovery: "<spec substring>:<marker file>"
+    if crash:
+        sub, marker = crash.split(":", 1)
+        if sub in str(item.get("spec")) and not os.path.exists(marker):
+            open(marker, "w").close()
+            os._exit(1)
     try:
         if kind == "contract":
             from pyvc.verify import verify_contract
@@ -225,12 +231,29 @@ def check_property(pid, tier, seed, jobs, verbose=False):
     ctxm = mp.get_context("fork")
     with cf.ProcessPoolExecutor(max_workers=max(1, min(jobs, len(items))), mp_context=ctxm) as ex:
         futs = [ex.submit(run_item, it) for it in items]
-        for f in futs:
+        failed = []
+        for it, f in zip(items, futs):
             try:
                 results.append(f.result(timeout=1500))
+            except cf.TimeoutError as e:
+                # an item beyond every budget: stop its worker (the pool would otherwise wait for it for ever)
+                for pr in list(getattr(ex, "_processes", {}).values()):
+                    try:
+                        pr.terminate()
+                    except Exception:
+                        pass
+                failed.append((it, e))
             except Exception as e:
-                results.append(dict(item={}, obligations=[dict(name=f"{pid}:worker", kind="vc", verdict="ERROR", reason=repr(e))],
-                                    meta={}, wall=0))
+                failed.append((it, e))
+    # a worker that died (e.g. a native crash inside the solver) breaks the whole pool: every pending item fails
+    # with it.  Such items are run once more, each in a process of its own, before anything is reported.
+    for it, e in failed:
+        try:
+            with cf.ProcessPoolExecutor(max_workers=1, mp_context=ctxm) as ex1:
+                results.append(ex1.submit(run_item, it).result(timeout=1500))
+        except Exception as e2:
+            results.append(dict(item=it, obligations=[dict(name=f"{pid}:{it.get('spec')}", kind="vc", verdict="ERROR",
+                                                           reason=f"worker failed twice: {e!r}; {e2!r}")], meta={}, wall=0))
     return conclude(pid, tier, seed, P, results, t0, verbose)
 
 
